@@ -61,6 +61,22 @@ fn any_date_of<const Y: i32>() -> NaiveDate {
     d.unwrap()
 }
 
+/// contract of `DateOffset::apply` (discharged on the real body by `date_offset_apply_*`, verif_day.rs): the date
+/// shifted by the day offset, then moved to the first target weekday not before / last target weekday not after it.
+/// The default offset (no day offset, no weekday) is the identity.
+pub(crate) fn date_offset_apply_model(o: &DateOffset, date: NaiveDate) -> NaiveDate {
+    let base = if o.day_offset == 0 { date } else { date + Duration::days(o.day_offset) };
+    match o.wday_offset {
+        WeekDayOffset::None => base,
+        WeekDayOffset::Next(t) => {
+            base + Duration::days(((7 + t.num_days_from_monday() - base.weekday().num_days_from_monday()) % 7) as i64)
+        }
+        WeekDayOffset::Prev(t) => {
+            base - Duration::days(((7 + base.weekday().num_days_from_monday() - t.num_days_from_monday()) % 7) as i64)
+        }
+    }
+}
+
 fn any_day() -> u8 {
     let d = nd::u8();
     nd::assume(1 <= d && d <= 31);
@@ -178,7 +194,7 @@ fn pairing_contract_body<const N: usize, const M: usize>() {
     vcover!("dated.pairing.closed", !open);
 }
 
-//@H props=C01,C02,C04 tier=deep want_tier=quick kind=bounded cap=1500 mem=medium bound="1 start bound, 1 end bound" domain="all dates 1900..9999 per bound and for the date"
+//@H tier_C04=thorough props=C01,C02,C04 tier=quick kind=bounded cap=1500 mem=medium bound="1 start bound, 1 end bound" domain="all dates 1900..9999 per bound and for the date"
 #[cfg_attr(kani, kani::proof)]
 #[cfg_attr(kani, kani::unwind(4))]
 #[cfg_attr(verif_replay, test)]
@@ -186,7 +202,7 @@ fn dated_pairing_1_1() {
     pairing_contract_body::<1, 1>()
 }
 
-//@H props=C01,C02,C04 tier=deep want_tier=quick kind=bounded cap=1500 mem=medium bound="0 start bounds, 2 end bounds" domain="all dates 1900..9999 per bound and for the date"
+//@H props=C01,C02,C04 tier=thorough kind=bounded cap=1500 mem=medium bound="0 start bounds, 2 end bounds" domain="all dates 1900..9999 per bound and for the date"
 #[cfg_attr(kani, kani::proof)]
 #[cfg_attr(kani, kani::unwind(4))]
 #[cfg_attr(verif_replay, test)]
@@ -194,7 +210,7 @@ fn dated_pairing_0_2() {
     pairing_contract_body::<0, 2>()
 }
 
-//@H props=C01,C02,C04 tier=deep want_tier=quick kind=bounded cap=1500 mem=medium bound="2 start bounds, 0 end bounds" domain="all dates 1900..9999 per bound and for the date"
+//@H props=C01,C02,C04 tier=thorough kind=bounded cap=1500 mem=medium bound="2 start bounds, 0 end bounds" domain="all dates 1900..9999 per bound and for the date"
 #[cfg_attr(kani, kani::proof)]
 #[cfg_attr(kani, kani::unwind(4))]
 #[cfg_attr(verif_replay, test)]
@@ -202,7 +218,7 @@ fn dated_pairing_2_0() {
     pairing_contract_body::<2, 0>()
 }
 
-//@H props=C01,C02,C04 tier=deep want_tier=quick kind=bounded cap=2400 mem=medium bound="2 start bounds, 2 end bounds" domain="all dates 1900..9999 per bound and for the date"
+//@H props=C01,C02,C04 tier=deep kind=bounded cap=2400 mem=medium bound="2 start bounds, 2 end bounds" domain="all dates 1900..9999 per bound and for the date"
 #[cfg_attr(kani, kani::proof)]
 #[cfg_attr(kani, kani::unwind(6))]
 #[cfg_attr(verif_replay, test)]
@@ -210,7 +226,7 @@ fn dated_pairing_2_2() {
     pairing_contract_body::<2, 2>()
 }
 
-//@H props=C01,C02,C04 tier=deep want_tier=quick kind=bounded cap=2400 mem=medium bound="1 start bound, 3 end bounds (`2025 Jan 10-Jan 20`)" domain="all dates 1900..9999 per bound and for the date"
+//@H props=C01,C02,C04 tier=deep kind=bounded cap=2400 mem=medium bound="1 start bound, 3 end bounds (`2025 Jan 10-Jan 20`)" domain="all dates 1900..9999 per bound and for the date"
 #[cfg_attr(kani, kani::proof)]
 #[cfg_attr(kani, kani::unwind(6))]
 #[cfg_attr(verif_replay, test)]
@@ -218,7 +234,7 @@ fn dated_pairing_1_3() {
     pairing_contract_body::<1, 3>()
 }
 
-//@H props=C01,C02,C04 tier=deep want_tier=thorough kind=bounded cap=3000 mem=medium bound="3 start bounds, 3 end bounds (a year-less range seen through its three-year window)" domain="all dates 1900..9999 per bound and for the date"
+//@H props=C01,C02,C04 tier=deep kind=bounded cap=3000 mem=medium bound="3 start bounds, 3 end bounds (a year-less range seen through its three-year window)" domain="all dates 1900..9999 per bound and for the date"
 #[cfg_attr(kani, kani::proof)]
 #[cfg_attr(kani, kani::unwind(8))]
 #[cfg_attr(verif_replay, test)]
@@ -330,7 +346,7 @@ fn prefix_lemma_body<const N: usize, const M: usize>() {
     vcover!("dated.prefix.truncated_and_decided", ks < N && deciding_interval_on_prefix(d, &sp, ks == N, &ep, ke == M).is_ok());
 }
 
-//@H props=C01,C02 tier=deep want_tier=quick kind=bounded cap=900 bound="lists of 3 start and 3 end bounds, every prefix of them" domain="all dates per bound and for the date"
+//@H props=C01,C02 tier=quick kind=bounded cap=900 bound="lists of 3 start and 3 end bounds, every prefix of them" domain="all dates per bound and for the date"
 #[cfg_attr(kani, kani::proof)]
 #[cfg_attr(kani, kani::unwind(5))]
 #[cfg_attr(verif_replay, test)]
@@ -378,9 +394,10 @@ fn fixed_no_year_filter_body<const Y: i32>(known_finding_region: bool) {
     vcover!("dated.fixed.miss_after_end", !got && (sm, sd) <= (em, ed) && d.month() > em as u32);
 }
 
-//@H props=C01,C04 tier=deep want_tier=quick kind=complete cap=1800 mem=medium domain="all (month, day 1..=31) start and end bounds x all dates 1900..9999, outside the invalid-day region; callees replaced by their contracts"
+//@H props=C01,C04 tier=thorough kind=complete cap=1800 mem=medium domain="all (month, day 1..=31) start and end bounds x all dates 1900..9999, outside the invalid-day region; callees replaced by their contracts"
 #[cfg_attr(kani, kani::proof)]
 #[cfg_attr(kani, kani::unwind(5))]
+#[cfg_attr(kani, kani::stub(opening_hours_syntax::rules::day::DateOffset::apply, date_offset_apply_model))]
 #[cfg_attr(kani, kani::stub(super::valid_ymd_after, valid_ymd_after_model))]
 #[cfg_attr(kani, kani::stub(super::valid_ymd_before, valid_ymd_before_model))]
 #[cfg_attr(kani, kani::stub(super::is_open_from_bounds, is_open_from_bounds_contract))]
@@ -390,9 +407,10 @@ fn dated_filter_fixed_no_year() {
     fixed_no_year_filter_body::<0>(false)
 }
 
-//@H props=C01,C04 tier=deep want_tier=quick kind=bounded cap=1500 mem=medium bound="dates of the year 2024 (a leap year)" domain="all (month, day 1..=31) start and end bounds x every day of 2024, outside the invalid-day region; callees replaced by their contracts"
+//@H tier_C04=thorough props=C01,C04 tier=quick kind=bounded cap=1500 mem=medium bound="dates of the year 2024 (a leap year)" domain="all (month, day 1..=31) start and end bounds x every day of 2024, outside the invalid-day region; callees replaced by their contracts"
 #[cfg_attr(kani, kani::proof)]
 #[cfg_attr(kani, kani::unwind(5))]
+#[cfg_attr(kani, kani::stub(opening_hours_syntax::rules::day::DateOffset::apply, date_offset_apply_model))]
 #[cfg_attr(kani, kani::stub(super::valid_ymd_after, valid_ymd_after_model))]
 #[cfg_attr(kani, kani::stub(super::valid_ymd_before, valid_ymd_before_model))]
 #[cfg_attr(kani, kani::stub(super::is_open_from_bounds, is_open_from_bounds_contract))]
@@ -402,9 +420,10 @@ fn dated_filter_fixed_no_year_2024() {
     fixed_no_year_filter_body::<2024>(false)
 }
 
-//@H props=C01 tier=deep want_tier=quick kind=bounded cap=1500 mem=medium finding=KF-C01-dated-range-of-nonexistent-days bound="the witness `Apr 31`, dates of the year 2024" domain="`Apr 31` x every day of 2024"
+//@H props=C01 tier=quick kind=bounded cap=1500 mem=medium finding=KF-C01-dated-range-of-nonexistent-days bound="the witness `Apr 31`, dates of the year 2024" domain="`Apr 31` x every day of 2024"
 #[cfg_attr(kani, kani::proof)]
 #[cfg_attr(kani, kani::unwind(5))]
+#[cfg_attr(kani, kani::stub(opening_hours_syntax::rules::day::DateOffset::apply, date_offset_apply_model))]
 #[cfg_attr(kani, kani::stub(super::valid_ymd_after, valid_ymd_after_model))]
 #[cfg_attr(kani, kani::stub(super::valid_ymd_before, valid_ymd_before_model))]
 #[cfg_attr(kani, kani::stub(super::is_open_from_bounds, is_open_from_bounds_contract))]
@@ -421,9 +440,10 @@ fn dated_filter_nonexistent_days_known_finding() {
     vpost!("C01.dated.year_less_range_is_every_day_from_start_to_end_recurring_yearly", got == spec_fixed_no_year(4, 31, 4, 31, d));
 }
 
-//@H props=C01,C04 tier=deep want_tier=quick kind=bounded cap=1500 mem=medium bound="dates of the year 2100 (a century year that is not a leap year)" domain="all (month, day 1..=31) start and end bounds x every day of 2100, outside the invalid-day region; callees replaced by their contracts"
+//@H props=C01,C04 tier=thorough kind=bounded cap=1500 mem=medium bound="dates of the year 2100 (a century year that is not a leap year)" domain="all (month, day 1..=31) start and end bounds x every day of 2100, outside the invalid-day region; callees replaced by their contracts"
 #[cfg_attr(kani, kani::proof)]
 #[cfg_attr(kani, kani::unwind(5))]
+#[cfg_attr(kani, kani::stub(opening_hours_syntax::rules::day::DateOffset::apply, date_offset_apply_model))]
 #[cfg_attr(kani, kani::stub(super::valid_ymd_after, valid_ymd_after_model))]
 #[cfg_attr(kani, kani::stub(super::valid_ymd_before, valid_ymd_before_model))]
 #[cfg_attr(kani, kani::stub(super::is_open_from_bounds, is_open_from_bounds_contract))]
@@ -433,9 +453,10 @@ fn dated_filter_fixed_no_year_2100() {
     fixed_no_year_filter_body::<2100>(false)
 }
 
-//@H props=C01,C04 tier=deep want_tier=quick kind=bounded cap=1500 mem=medium bound="dates of the year 9999 (the last supported year)" domain="all (month, day 1..=31) start and end bounds x every day of 9999, outside the invalid-day region; callees replaced by their contracts"
+//@H props=C01,C04 tier=thorough kind=bounded cap=1500 mem=medium bound="dates of the year 9999 (the last supported year)" domain="all (month, day 1..=31) start and end bounds x every day of 9999, outside the invalid-day region; callees replaced by their contracts"
 #[cfg_attr(kani, kani::proof)]
 #[cfg_attr(kani, kani::unwind(5))]
+#[cfg_attr(kani, kani::stub(opening_hours_syntax::rules::day::DateOffset::apply, date_offset_apply_model))]
 #[cfg_attr(kani, kani::stub(super::valid_ymd_after, valid_ymd_after_model))]
 #[cfg_attr(kani, kani::stub(super::valid_ymd_before, valid_ymd_before_model))]
 #[cfg_attr(kani, kani::stub(super::is_open_from_bounds, is_open_from_bounds_contract))]
@@ -478,7 +499,7 @@ fn intervals_from_bounds_body<const N: usize, const M: usize>() {
     vcover!("dated.pairing.stale_ends_dropped", N >= 1 && M >= 3 && ends[0] < ends[1] && ends[1] < starts[0] && starts[0] < ends[2]);
 }
 
-//@H props=C01,C04 tier=deep want_tier=quick kind=bounded cap=1500 mem=medium bound="1 start bound, 3 end bounds (the shape of `2025 Jan 10-Jan 20` seen from the year before)" domain="all dates 1900..9999 per bound, any order"
+//@H props=C01,C04 tier=thorough kind=bounded cap=1500 mem=medium bound="1 start bound, 3 end bounds (the shape of `2025 Jan 10-Jan 20` seen from the year before)" domain="all dates 1900..9999 per bound, any order"
 #[cfg_attr(kani, kani::proof)]
 #[cfg_attr(kani, kani::unwind(5))]
 #[cfg_attr(verif_replay, test)]
@@ -486,7 +507,7 @@ fn dated_intervals_from_bounds_1_3() {
     intervals_from_bounds_body::<1, 3>()
 }
 
-//@H props=C01,C04 tier=deep want_tier=thorough kind=bounded cap=2400 mem=medium bound="2 start bounds, 2 end bounds" domain="all dates 1900..9999 per bound, any order"
+//@H props=C01,C04 tier=deep kind=bounded cap=2400 mem=medium bound="2 start bounds, 2 end bounds" domain="all dates 1900..9999 per bound, any order"
 #[cfg_attr(kani, kani::proof)]
 #[cfg_attr(kani, kani::unwind(4))]
 #[cfg_attr(verif_replay, test)]
@@ -528,55 +549,61 @@ fn feb29_hint_body<const Y: i32>() {
             "C02.dated.feb29_hint_no_change_before_hint",
             !(d < between && between < h && is_feb29(between) != is_feb29(d))
         );
-        vpost!("C08.dated.feb29_hint_within_supported_range", h <= date_end());
+        vpost!("C08.dated.feb29_hint_within_supported_range_or_dropped", h <= date_end() || h.year() == 10000);
     }
     vcover!("dated.feb29_hint.reachable", true);
     vcover!("dated.feb29_hint.years_ahead", matches!(hint, Some(h) if h.year() - d.year() >= 3));
 }
 
-//@H props=C01,C04 tier=deep want_tier=quick kind=bounded cap=1800 mem=medium bound="dates of the year 2024: a leap year" domain="`Feb 29` without offsets x every day of 2024; the search over leap years is closed by the 8-year gap (unwinding assertion on)"
+//@H props=C01,C04 tier=off kind=bounded cap=1800 mem=medium bound="dates of the year 2024: a leap year" domain="`Feb 29` without offsets x every day of 2024; the search over leap years is closed by the 8-year gap (unwinding assertion on)" note="symbolic execution unfinished after 30 min even with DateOffset::apply replaced by its contract: the search over leap years (`year - 1..=10000` filtered by from_ymd_opt) is re-unwound from every step of `find`"
 #[cfg_attr(kani, kani::proof)]
 #[cfg_attr(kani, kani::unwind(12))]
+#[cfg_attr(kani, kani::stub(opening_hours_syntax::rules::day::DateOffset::apply, date_offset_apply_model))]
 #[cfg_attr(verif_replay, test)]
 fn dated_filter_feb29_2024() {
     feb29_filter_body::<2024>()
 }
 
-//@H props=C02,C08,C04 tier=deep want_tier=quick kind=bounded cap=1800 mem=medium bound="dates of the year 2024: a leap year" domain="`Feb 29` without offsets x every day of 2024 x all intermediate dates; leap-year search closed by the 8-year gap (unwinding assertion on)"
+//@H props=C02,C08,C04 tier=off kind=bounded cap=1800 mem=medium bound="dates of the year 2024: a leap year" domain="`Feb 29` without offsets x every day of 2024 x all intermediate dates; leap-year search closed by the 8-year gap (unwinding assertion on)" note="symbolic execution unfinished after 30 min even with DateOffset::apply replaced by its contract: the search over leap years (`year - 1..=10000` filtered by from_ymd_opt) is re-unwound from every step of `find`"
 #[cfg_attr(kani, kani::proof)]
 #[cfg_attr(kani, kani::unwind(12))]
+#[cfg_attr(kani, kani::stub(opening_hours_syntax::rules::day::DateOffset::apply, date_offset_apply_model))]
 #[cfg_attr(verif_replay, test)]
 fn dated_hint_feb29_2024() {
     feb29_hint_body::<2024>()
 }
 
-//@H props=C01,C04 tier=deep want_tier=quick kind=bounded cap=1800 mem=medium bound="dates of the year 2097: the next leap day is eight years ahead (2100 is not a leap year)" domain="`Feb 29` without offsets x every day of 2097; the search over leap years is closed by the 8-year gap (unwinding assertion on)"
+//@H props=C01,C04 tier=off kind=bounded cap=1800 mem=medium bound="dates of the year 2097: the next leap day is eight years ahead (2100 is not a leap year)" domain="`Feb 29` without offsets x every day of 2097; the search over leap years is closed by the 8-year gap (unwinding assertion on)" note="symbolic execution unfinished after 30 min even with DateOffset::apply replaced by its contract: the search over leap years (`year - 1..=10000` filtered by from_ymd_opt) is re-unwound from every step of `find`"
 #[cfg_attr(kani, kani::proof)]
 #[cfg_attr(kani, kani::unwind(12))]
+#[cfg_attr(kani, kani::stub(opening_hours_syntax::rules::day::DateOffset::apply, date_offset_apply_model))]
 #[cfg_attr(verif_replay, test)]
 fn dated_filter_feb29_2097() {
     feb29_filter_body::<2097>()
 }
 
-//@H props=C02,C08,C04 tier=deep want_tier=quick kind=bounded cap=1800 mem=medium bound="dates of the year 2097: the next leap day is eight years ahead (2100 is not a leap year)" domain="`Feb 29` without offsets x every day of 2097 x all intermediate dates; leap-year search closed by the 8-year gap (unwinding assertion on)"
+//@H props=C02,C08,C04 tier=off kind=bounded cap=1800 mem=medium bound="dates of the year 2097: the next leap day is eight years ahead (2100 is not a leap year)" domain="`Feb 29` without offsets x every day of 2097 x all intermediate dates; leap-year search closed by the 8-year gap (unwinding assertion on)" note="symbolic execution unfinished after 30 min even with DateOffset::apply replaced by its contract: the search over leap years (`year - 1..=10000` filtered by from_ymd_opt) is re-unwound from every step of `find`"
 #[cfg_attr(kani, kani::proof)]
 #[cfg_attr(kani, kani::unwind(12))]
+#[cfg_attr(kani, kani::stub(opening_hours_syntax::rules::day::DateOffset::apply, date_offset_apply_model))]
 #[cfg_attr(verif_replay, test)]
 fn dated_hint_feb29_2097() {
     feb29_hint_body::<2097>()
 }
 
-//@H props=C01,C04 tier=deep want_tier=thorough kind=bounded cap=1800 mem=medium bound="dates of the year 9997: the last leap day of the supported range lies behind" domain="`Feb 29` without offsets x every day of 9997; the search over leap years is closed by the 8-year gap (unwinding assertion on)"
+//@H props=C01,C04 tier=off kind=bounded cap=1800 mem=medium bound="dates of the year 9997: the last leap day of the supported range lies behind" domain="`Feb 29` without offsets x every day of 9997; the search over leap years is closed by the 8-year gap (unwinding assertion on)" note="symbolic execution unfinished after 30 min even with DateOffset::apply replaced by its contract: the search over leap years (`year - 1..=10000` filtered by from_ymd_opt) is re-unwound from every step of `find`"
 #[cfg_attr(kani, kani::proof)]
 #[cfg_attr(kani, kani::unwind(12))]
+#[cfg_attr(kani, kani::stub(opening_hours_syntax::rules::day::DateOffset::apply, date_offset_apply_model))]
 #[cfg_attr(verif_replay, test)]
 fn dated_filter_feb29_9997() {
     feb29_filter_body::<9997>()
 }
 
-//@H props=C02,C08,C04 tier=deep want_tier=thorough kind=bounded cap=1800 mem=medium bound="dates of the year 9997: the last leap day of the supported range lies behind" domain="`Feb 29` without offsets x every day of 9997 x all intermediate dates; leap-year search closed by the 8-year gap (unwinding assertion on)"
+//@H props=C02,C08,C04 tier=off kind=bounded cap=1800 mem=medium bound="dates of the year 9997: the last leap day of the supported range lies behind" domain="`Feb 29` without offsets x every day of 9997 x all intermediate dates; leap-year search closed by the 8-year gap (unwinding assertion on)" note="symbolic execution unfinished after 30 min even with DateOffset::apply replaced by its contract: the search over leap years (`year - 1..=10000` filtered by from_ymd_opt) is re-unwound from every step of `find`"
 #[cfg_attr(kani, kani::proof)]
 #[cfg_attr(kani, kani::unwind(12))]
+#[cfg_attr(kani, kani::stub(opening_hours_syntax::rules::day::DateOffset::apply, date_offset_apply_model))]
 #[cfg_attr(verif_replay, test)]
 fn dated_hint_feb29_9997() {
     feb29_hint_body::<9997>()
@@ -612,9 +639,10 @@ fn fixed_with_years_filter_body<const Y: i32>() {
     vcover!("dated.years.miss_before_the_start", !got && d < s);
 }
 
-//@H props=C01,C04 tier=deep want_tier=quick kind=complete cap=1800 mem=medium domain="all (year 1900..=9999, month, day 1..=31) start and end bounds with start <= end x all dates 1900..9999; callees replaced by their contracts"
+//@H tier_C04=thorough props=C01,C04 tier=quick kind=complete cap=1800 mem=medium domain="all (year 1900..=9999, month, day 1..=31) start and end bounds with start <= end x all dates 1900..9999; callees replaced by their contracts"
 #[cfg_attr(kani, kani::proof)]
 #[cfg_attr(kani, kani::unwind(5))]
+#[cfg_attr(kani, kani::stub(opening_hours_syntax::rules::day::DateOffset::apply, date_offset_apply_model))]
 #[cfg_attr(kani, kani::stub(super::valid_ymd_after, valid_ymd_after_model))]
 #[cfg_attr(kani, kani::stub(super::valid_ymd_before, valid_ymd_before_model))]
 #[cfg_attr(kani, kani::stub(super::is_open_from_bounds, is_open_from_bounds_contract))]
@@ -624,9 +652,10 @@ fn dated_filter_fixed_with_years() {
     fixed_with_years_filter_body::<0>()
 }
 
-//@H props=C01,C04 tier=deep want_tier=quick kind=bounded cap=1500 mem=medium bound="dates of the year 2024 (a leap year)" domain="all (year 1900..=9999, month, day 1..=31) start and end bounds with start <= end x every day of 2024; callees replaced by their contracts"
+//@H props=C01,C04 tier=deep kind=bounded cap=1500 mem=medium bound="dates of the year 2024 (a leap year)" domain="all (year 1900..=9999, month, day 1..=31) start and end bounds with start <= end x every day of 2024; callees replaced by their contracts"
 #[cfg_attr(kani, kani::proof)]
 #[cfg_attr(kani, kani::unwind(5))]
+#[cfg_attr(kani, kani::stub(opening_hours_syntax::rules::day::DateOffset::apply, date_offset_apply_model))]
 #[cfg_attr(kani, kani::stub(super::valid_ymd_after, valid_ymd_after_model))]
 #[cfg_attr(kani, kani::stub(super::valid_ymd_before, valid_ymd_before_model))]
 #[cfg_attr(kani, kani::stub(super::is_open_from_bounds, is_open_from_bounds_contract))]
@@ -646,9 +675,10 @@ fn start_year_only_range(sy: u16, sm: Month, sd: u8, em: Month, ed: u8) -> (Naiv
     (s, e)
 }
 
-//@H props=C01,C04 tier=deep want_tier=quick kind=complete cap=1800 mem=medium domain="ranges whose start carries a year and whose end does not (`2021 Mar 28-Apr 16`) x all dates 1900..9999"
+//@H props=C01,C04 tier=thorough kind=complete cap=1800 mem=medium domain="ranges whose start carries a year and whose end does not (`2021 Mar 28-Apr 16`) x all dates 1900..9999"
 #[cfg_attr(kani, kani::proof)]
 #[cfg_attr(kani, kani::unwind(5))]
+#[cfg_attr(kani, kani::stub(opening_hours_syntax::rules::day::DateOffset::apply, date_offset_apply_model))]
 #[cfg_attr(kani, kani::stub(super::valid_ymd_after, valid_ymd_after_model))]
 #[cfg_attr(kani, kani::stub(super::valid_ymd_before, valid_ymd_before_model))]
 #[cfg_attr(kani, kani::stub(super::is_open_from_bounds, is_open_from_bounds_contract))]
@@ -693,7 +723,7 @@ fn start_year_hint_body<const Y: i32>(end_has_year: bool) {
     if let Some(h) = hint {
         vpost!("C02.dated.start_year_hint_is_after_the_date", h > d);
         vpost!("C02.dated.start_year_hint_no_change_before_hint", !(d < between && between < h && inside(between) != inside(d)));
-        vpost!("C08.dated.start_year_hint_within_supported_range", h <= date_end());
+        vpost!("C08.dated.start_year_hint_within_supported_range_or_dropped", h <= date_end() || h.year() == 10000);
     }
     vcover!("dated.start_year_hint.before", d < s);
     vcover!("dated.start_year_hint.inside", inside(d));
@@ -701,9 +731,10 @@ fn start_year_hint_body<const Y: i32>(end_has_year: bool) {
     vcover!("dated.start_year_hint.end_in_next_year", end_has_year || e.year() > s.year());
 }
 
-//@H props=C02,C08,C04 tier=deep want_tier=quick kind=complete cap=1800 mem=medium domain="ranges with years on both bounds (existing days, start <= end) x all dates x all intermediate dates"
+//@H tier_C04=thorough props=C02,C08,C04 tier=quick kind=complete cap=1800 mem=medium domain="ranges with years on both bounds (existing days, start <= end) x all dates x all intermediate dates"
 #[cfg_attr(kani, kani::proof)]
 #[cfg_attr(kani, kani::unwind(6))]
+#[cfg_attr(kani, kani::stub(opening_hours_syntax::rules::day::DateOffset::apply, date_offset_apply_model))]
 #[cfg_attr(kani, kani::stub(super::valid_ymd_after, valid_ymd_after_model))]
 #[cfg_attr(kani, kani::stub(super::valid_ymd_before, valid_ymd_before_model))]
 #[cfg_attr(kani, kani::stub(super::is_open_from_bounds, is_open_from_bounds_contract))]
@@ -713,9 +744,10 @@ fn dated_hint_years_on_both_bounds() {
     start_year_hint_body::<0>(true)
 }
 
-//@H props=C02,C08,C04 tier=deep want_tier=quick kind=complete cap=1800 mem=medium domain="ranges with a year on the start only (existing days) x all dates x all intermediate dates"
+//@H props=C02,C08,C04 tier=thorough kind=complete cap=1800 mem=medium domain="ranges with a year on the start only (existing days) x all dates x all intermediate dates"
 #[cfg_attr(kani, kani::proof)]
 #[cfg_attr(kani, kani::unwind(6))]
+#[cfg_attr(kani, kani::stub(opening_hours_syntax::rules::day::DateOffset::apply, date_offset_apply_model))]
 #[cfg_attr(kani, kani::stub(super::valid_ymd_after, valid_ymd_after_model))]
 #[cfg_attr(kani, kani::stub(super::valid_ymd_before, valid_ymd_before_model))]
 #[cfg_attr(kani, kani::stub(super::is_open_from_bounds, is_open_from_bounds_contract))]
@@ -745,16 +777,17 @@ fn fixed_no_year_hint_body<const Y: i32>() {
     if let Some(h) = hint {
         vpost!("C02.dated.year_less_hint_is_after_the_date", h > d);
         vpost!("C02.dated.year_less_hint_no_change_before_hint", !(d < between && between < h && spec(between) != spec(d)));
-        vpost!("C08.dated.year_less_hint_within_supported_range", h <= date_end());
+        vpost!("C08.dated.year_less_hint_within_supported_range_or_dropped", h <= date_end() || h.year() == 10000);
     }
     vcover!("dated.year_less_hint.inside", spec(d));
     vcover!("dated.year_less_hint.outside", !spec(d));
     vcover!("dated.year_less_hint.next_year", matches!(hint, Some(h) if h.year() > d.year()));
 }
 
-//@H props=C02,C08,C04 tier=deep want_tier=quick kind=complete cap=2400 mem=medium domain="all year-less (month, day) bounds x all dates x all intermediate dates, outside the invalid-day region; callees replaced by their contracts"
+//@H props=C02,C08,C04 tier=deep kind=complete cap=2400 mem=medium domain="all year-less (month, day) bounds x all dates x all intermediate dates, outside the invalid-day region; callees replaced by their contracts"
 #[cfg_attr(kani, kani::proof)]
 #[cfg_attr(kani, kani::unwind(6))]
+#[cfg_attr(kani, kani::stub(opening_hours_syntax::rules::day::DateOffset::apply, date_offset_apply_model))]
 #[cfg_attr(kani, kani::stub(super::valid_ymd_after, valid_ymd_after_model))]
 #[cfg_attr(kani, kani::stub(super::valid_ymd_before, valid_ymd_before_model))]
 #[cfg_attr(kani, kani::stub(super::is_open_from_bounds, is_open_from_bounds_contract))]
@@ -764,9 +797,10 @@ fn dated_hint_fixed_no_year() {
     fixed_no_year_hint_body::<0>()
 }
 
-//@H props=C02,C08,C04 tier=deep want_tier=quick kind=bounded cap=1500 mem=medium bound="dates of the year 2024 (a leap year)" domain="all year-less (month, day) bounds x every day of 2024 x all intermediate dates, outside the invalid-day region; callees replaced by their contracts"
+//@H props=C02,C08,C04 tier=thorough kind=bounded cap=1500 mem=medium bound="dates of the year 2024 (a leap year)" domain="all year-less (month, day) bounds x every day of 2024 x all intermediate dates, outside the invalid-day region; callees replaced by their contracts"
 #[cfg_attr(kani, kani::proof)]
 #[cfg_attr(kani, kani::unwind(6))]
+#[cfg_attr(kani, kani::stub(opening_hours_syntax::rules::day::DateOffset::apply, date_offset_apply_model))]
 #[cfg_attr(kani, kani::stub(super::valid_ymd_after, valid_ymd_after_model))]
 #[cfg_attr(kani, kani::stub(super::valid_ymd_before, valid_ymd_before_model))]
 #[cfg_attr(kani, kani::stub(super::is_open_from_bounds, is_open_from_bounds_contract))]
@@ -776,9 +810,10 @@ fn dated_hint_fixed_no_year_2024() {
     fixed_no_year_hint_body::<2024>()
 }
 
-//@H props=C02,C08,C04 tier=deep want_tier=quick kind=bounded cap=1500 mem=medium bound="dates of the year 9999 (the last supported year)" domain="all year-less (month, day) bounds x every day of 9999 x all intermediate dates, outside the invalid-day region; callees replaced by their contracts"
+//@H props=C02,C08,C04 tier=deep kind=bounded cap=1500 mem=medium bound="dates of the year 9999 (the last supported year)" domain="all year-less (month, day) bounds x every day of 9999 x all intermediate dates, outside the invalid-day region; callees replaced by their contracts"
 #[cfg_attr(kani, kani::proof)]
 #[cfg_attr(kani, kani::unwind(6))]
+#[cfg_attr(kani, kani::stub(opening_hours_syntax::rules::day::DateOffset::apply, date_offset_apply_model))]
 #[cfg_attr(kani, kani::stub(super::valid_ymd_after, valid_ymd_after_model))]
 #[cfg_attr(kani, kani::stub(super::valid_ymd_before, valid_ymd_before_model))]
 #[cfg_attr(kani, kani::stub(super::is_open_from_bounds, is_open_from_bounds_contract))]
